@@ -44,6 +44,9 @@ class SimilarFinder:
     def get_matches(self, code, args=None, start=0, end=None):
         if args is None:
             args = {}
+        if args != getattr(self, "args", args):
+            # the cached matches were computed with other wildcard arguments
+            self.raw_finder._matched_asts.clear()
         self.args = args
         if end is None:
             end = len(self.source)
